@@ -81,6 +81,10 @@ func (x *Exec) ndName(name string, n int) Value {
 	a := x.M.Mem.AllocSym(n, name)
 	l := x.M.Fresh(name+".len", 64)
 	x.M.Assume(smt.Ule(l, c64(uint64(n))))
+	// archive names are C strings / PAX records: they cannot contain NUL
+	for _, b := range a.Bytes {
+		x.M.Assume(smt.Ne(b, smt.Const(8, 0)))
+	}
 	return Agg{a.Ptr(), l}
 }
 
@@ -135,10 +139,12 @@ func RegisterArchiveStubs(x *Exec, nameLen, maxEntries int) {
 			h := x.newObj(ht, "tar.Header")
 			nm := x.ndName(fmt.Sprintf("e%d.name", n), nameLen)
 			x.setField(h, ht, "Name", nm)
-			x.setField(h, ht, "Typeflag", x.M.Fresh(fmt.Sprintf("e%d.typeflag", n), 8))
+			tf := x.M.Fresh(fmt.Sprintf("e%d.typeflag", n), 8)
+			x.setField(h, ht, "Typeflag", tf)
 			x.setField(h, ht, "Mode", x.M.Fresh(fmt.Sprintf("e%d.mode", n), 64))
-			x.setField(h, ht, "Linkname", x.ndName(fmt.Sprintf("e%d.link", n), nameLen))
-			x.event("tar.Next", nm)
+			ln := x.ndName(fmt.Sprintf("e%d.link", n), nameLen)
+			x.setField(h, ht, "Linkname", ln)
+			x.event("tar.Next", nm, ln, smt.ZExt(tf, 64))
 			return Agg{h.Ptr(), x.nilErr()}
 		})
 	fsEvent := func(kind string, res func(x *Exec) Value) Intrinsic {
@@ -160,6 +166,8 @@ func RegisterArchiveStubs(x *Exec, nameLen, maxEntries int) {
 		x.event("Link", args[1], args[0])
 		return x.nilErr()
 	})
+	stub("os.Remove", "event, nil", fsEvent("Remove", func(x *Exec) Value { return x.nilErr() }))
+	stub("os.RemoveAll", "event, nil", fsEvent("RemoveAll", func(x *Exec) Value { return x.nilErr() }))
 	stub("os.Chmod", "nil", func(x *Exec, fr *frame, args []Value, _ *ssa.CallCommon) Value { return x.nilErr() })
 	stub("os.Chtimes", "nil", func(x *Exec, fr *frame, args []Value, _ *ssa.CallCommon) Value { return x.nilErr() })
 	stub("io.Copy", "(0, nil)", func(x *Exec, fr *frame, args []Value, _ *ssa.CallCommon) Value { return Agg{c64(0), x.nilErr()} })
@@ -182,7 +190,7 @@ func RegisterArchiveStubs(x *Exec, nameLen, maxEntries int) {
 				x.setField(f, ft, "ExternalAttrs", x.M.Fresh(fmt.Sprintf("z%d.attrs", i), 32))
 				x.setField(f, ft, "CreatorVersion", x.M.Fresh(fmt.Sprintf("z%d.creator", i), 16))
 				x.M.Mem.Store(smt.Add(arr.Ptr(), c64(uint64(8*i))), core.TI64, f.Ptr(), &x.hooks, "zip files")
-				x.event("zip.File", nm)
+				x.event("zip.File", nm, x.stringConst(""), c64('0'))
 			}
 			x.setField(rc, rt, "File", Agg{arr.Ptr(), c64(uint64(n)), c64(uint64(maxEntries))})
 			return Agg{rc.Ptr(), x.nilErr()}
